@@ -1205,6 +1205,65 @@ Example ex_1200 :
   (length (ckms_samples st), ckms_query st f_half) = (1200%nat, Some (600, fz 599)).
 Proof. vm_compute. reflexivity. Qed.
 
+
+(** * The percentile cell of the pipeline model (Pipeline.v [APct]): what
+    percentile.rs [emit] answers for a group *)
+From AG Require Import Str Value Json Expr Ops Pipeline Agg_proofs.
+
+(** the values that reach the sketch: the numeric argument values that are not NaN, in arrival order *)
+Definition pct_args (e : expr) (rows : list data) : list f64 :=
+  filter (fun v => negb (f_is_nan v)) (numeric_args e rows).
+
+Lemma pct_fold : forall e p rows vals,
+  fold_left acc_step rows (APct vals p e) = APct (rev (pct_args e rows) ++ vals) p e.
+Proof.
+  intros e p rows. unfold pct_args, numeric_args.
+  induction rows as [|d rows IH]; intros vals; [reflexivity|].
+  cbn [fold_left flat_map acc_step].
+  destruct (eval_f64 e d) as [v| | |]; cbn [app filter]; try apply IH.
+  destruct (f_is_nan v); cbn [negb]; [apply IH|].
+  rewrite IH. cbn [rev]. rewrite <- app_assoc. reflexivity.
+Qed.
+
+Lemma pct_emit_eq : forall p e rows,
+  acc_emit (fold_left acc_step rows (acc_empty (FPct p e))) =
+  Ok (match ckms_run ckms_error_f (pct_args e rows) p with
+      | Some (_, v) => from_float v
+      | None => VNone
+      end).
+Proof.
+  intros p e rows. cbn [acc_empty]. rewrite pct_fold. cbn [acc_emit].
+  rewrite app_nil_r, rev_involutive. reflexivity.
+Qed.
+
+Lemma from_float_not_none : forall v, from_float v <> VNone.
+Proof. intros v. unfold from_float. destruct (_ && _); discriminate. Qed.
+
+(** (i) the cell is None exactly when no non-NaN numeric argument value reached the group *)
+Theorem pct_cell_none_iff : forall p e rows,
+  acc_emit (fold_left acc_step rows (acc_empty (FPct p e))) = Ok VNone <-> pct_args e rows = [].
+Proof.
+  intros p e rows. rewrite pct_emit_eq. split.
+  - intros H. destruct (pct_args e rows) as [|a l] eqn:E; [reflexivity|]. exfalso.
+    destruct (ckms_nonempty_answers ckms_error_f (a :: l) p) as (r & v & Hq); [discriminate|].
+    rewrite Hq in H. injection H as H. exact (from_float_not_none v H).
+  - intros ->. rewrite ckms_empty_none. reflexivity.
+Qed.
+
+(** (ii) otherwise it is [from_float] of one of those values *)
+Theorem pct_cell_observed : forall p e rows, pct_args e rows <> [] ->
+  exists v, In v (pct_args e rows) /\
+            acc_emit (fold_left acc_step rows (acc_empty (FPct p e))) = Ok (from_float v).
+Proof.
+  intros p e rows Hne. rewrite pct_emit_eq.
+  destruct (ckms_nonempty_answers ckms_error_f _ p Hne) as (r & v & Hq).
+  exists v. split; [apply (ckms_query_observed _ _ _ _ _ Hq) | rewrite Hq; reflexivity].
+Qed.
+
+(** (iii) the emit of a percentile accumulator is always [Ok]: no Panic, no Unm, no Err *)
+Theorem pct_emit_ok : forall vals p e, exists v, acc_emit (APct vals p e) = Ok v.
+Proof. intros vals p e. cbn [acc_emit]. eexists. reflexivity. Qed.
+
 Print Assumptions ckms_query_observed.
 Print Assumptions ckms_nonempty_answers.
 Print Assumptions ckms_empty_none.
@@ -1213,3 +1272,6 @@ Print Assumptions ckms_sorted.
 Print Assumptions ckms_exact_below_threshold.
 Print Assumptions ckms_max_kept.
 Print Assumptions ckms_min_kept.
+Print Assumptions pct_cell_none_iff.
+Print Assumptions pct_cell_observed.
+Print Assumptions pct_emit_ok.
